@@ -104,6 +104,9 @@ type VerifRoot struct {
 	RootLen     uint32
 	RootCached  bool
 	RootEmpty   bool
+	// ChainMarks holds the reclaim mark addresses of the newer versions that
+	// this version keeps alive through its chain (nearest first).
+	ChainMarks []uintptr
 }
 
 // VerifRootInfo reports the current version handle under the collection's own lock.
@@ -123,6 +126,9 @@ func VerifRootInfo(t *Collection) (res VerifRoot) {
 	res.Chained = r.chainedRootNodeLoc != nil
 	res.RootLocAddr = uintptr(unsafe.Pointer(r.root))
 	res.MarkAddr = uintptr(unsafe.Pointer(&r.reclaimMark))
+	for c, i := r.chainedRootNodeLoc, 0; c != nil && i < 1<<16; c, i = c.chainedRootNodeLoc, i+1 {
+		res.ChainMarks = append(res.ChainMarks, uintptr(unsafe.Pointer(&c.reclaimMark)))
+	}
 	if r.root != nil {
 		if r.root.loc != nil {
 			res.RootOff, res.RootLen = r.root.loc.Offset, r.root.loc.Length
